@@ -22,6 +22,9 @@ E1 == { <<X>>, <<X, LB, Star, RB, Dot, A>>, <<Star>>, Fn(<<108,101,110,103,116,1
         Fn(<<97,98,115>>, <<Json(<<96,45,49,96>>)>>), Fn(<<115,117,109>>, <<B>>), <<Json(<<96,91,51,44,91,49,44,110,117,108,108,93,44,123,34,97,34,58,50,125,93,96>>)>>, Fn(<<116,121,112,101>>, <<X>>), <<X, Flat>>,
         Fn(<<105,116,101,109,115>>, <<CurT>>), Fn(<<115,112,108,105,116>>, <<Raw(<<39,97,44,98,39>>), Comma, Raw(<<39,44,39>>)>>), <<Json(<<96,55,96>>), IDivT, Json(<<96,50,96>>)>>,
         Fn(<<99,101,105,108>>, <<Json(<<96,49,46,50,96>>)>>), Fn(<<109,97,120>>, <<B>>), Fn(<<110,111,116,95,110,117,108,108>>, <<A, Comma, B>>), <<A, EqT, B>>, Fn(<<118,97,108,117,101,115>>, <<CurT>>),
+        Fn(<<116,111,95,110,117,109,98,101,114>>, <<Raw(<<39,48,48,48,48,48,48,48,48,48,48,48,48,48,48,48,48,48,48,48,48,48,48,48,48,48,48,48,48,48,48,48,48,48,48,48,48,48,48,52,50,39>>)>>), Fn(<<116,111,95,110,117,109,98,101,114>>, <<Raw(<<39,43,49,50,51,52,53,54,55,56,57,48,49,50,51,52,53,54,55,56,57,48,49,50,51,52,53,54,55,56,57,48,49,50,51,52,53,54,39>>)>>),
+        Fn(<<116,111,95,110,117,109,98,101,114>>, <<Raw(<<39,49,46,48,48,48,48,48,48,48,48,48,48,48,48,48,48,48,48,48,48,48,48,48,48,48,48,48,48,48,48,48,48,48,48,48,48,48,48,48,48,48,48,39>>)>>), Fn(<<116,111,95,110,117,109,98,101,114>>, <<Raw(<<39,49,50,51,52,53,54,55,56,57,48,49,50,51,52,53,54,55,56,57,48,49,50,51,52,53,54,55,56,57,48,49,50,51,52,53,54,55,56,57,48,49,50,51,52,53,54,55,56,57,48,39>>)>>),
+        Fn(<<116,111,95,110,117,109,98,101,114>>, <<Raw(<<39,46,53,39>>)>>), Fn(<<116,111,95,110,117,109,98,101,114>>, <<Raw(<<39,53,46,39>>)>>), Fn(<<116,111,95,110,117,109,98,101,114>>, <<Raw(<<39,49,101,53,48,48,48,39>>)>>), Fn(<<116,111,95,110,117,109,98,101,114>>, <<Raw(<<39,32,49,39>>)>>),
         Fn(<<116,111,95,110,117,109,98,101,114>>, <<Raw(<<39,78,97,78,39>>)>>), Fn(<<116,111,95,110,117,109,98,101,114>>, <<Raw(<<39,73,110,102,105,110,105,116,121,39>>)>>), Fn(<<116,111,95,110,117,109,98,101,114>>, <<Raw(<<39,45,105,110,102,39>>)>>),
         <<LB>> \o Fn(<<116,111,95,110,117,109,98,101,114>>, <<Raw(<<39,110,97,110,39>>)>>) \o <<Comma>> \o Fn(<<116,111,95,110,117,109,98,101,114>>, <<Raw(<<39,43,73,110,102,39>>)>>) \o <<RB>>,
         Fn(<<109,97,112>>, <<AmpT>> \o Fn(<<108,101,110,103,116,104>>, Fn(<<116,111,95,97,114,114,97,121>>, <<CurT>>)) \o <<Comma>> \o Fn(<<116,111,95,97,114,114,97,121>>, <<X>>)) }
